@@ -31,7 +31,8 @@ CHECKS = {'C01': {'level': 'exploration',
                  'and merges over several columns and rows - through Row setters or through txn.Int(name) accessors at the cursor - with a '
                  'DropColumn of one of the written columns landing at a drawn point INSIDE the body: what was queued for the dropped column vanishes '
                  'with it, every other write of the transaction must arrive | since round 8 generated transactions may end by obtaining typed column '
-                 'accessors that they only read (txn.Int64(name).Get(): an update buffer that stays empty)',
+                 'accessors that they only read (txn.Int64(name).Get(): an update buffer that stays empty) | since round 9 one generated transaction '
+                 'in sixteen has an empty body (no effect, nothing emitted)',
          'assumptions': ["values are in the documented domain (strings <= 65535 bytes; SetAny/SetMany values have the column's Go type)",
                          'writes target rows that are live when issued (writes to dead offsets are outside the property)',
                          'histories are bounded: <= 3 blocks (offsets < 49152), ~30 actions, <= 12 steps per transaction'],
@@ -79,7 +80,7 @@ CHECKS = {'C01': {'level': 'exploration',
                  'merge that returns a sub-slice of its delta | since round 7: DropColumn of a value column and its later re-creation under the same '
                  'name (nothing of the former values may show), dropped index names that come back on another column / with another rule | since '
                  'round 8 generated transactions may end by obtaining typed column accessors that they only read (txn.Int64(name).Get(): an update '
-                 'buffer that stays empty)',
+                 'buffer that stays empty) | since round 9 one generated transaction in sixteen has an empty body (no effect, nothing emitted)',
          'assumptions': ['in-flight observation happens from the same goroutine between two steps of the body (no latch is held there)',
                          'generator exclusions driven by known findings are counted in coverage.excluded_by_known_finding'],
          'tests': [{'run': '^TestC02$',
@@ -116,7 +117,8 @@ CHECKS = {'C01': {'level': 'exploration',
                  'column / with another rule | since round 8: DropColumn of a value column that carries no live index (an index dropped through '
                  'DropColumn(indexName) is still attached to it inside the library, and its name may be in use again on another column); the indexes '
                  'are checked right afterwards | since round 8 generated transactions may end by obtaining typed column accessors that they only '
-                 'read (txn.Int64(name).Get(): an update buffer that stays empty)',
+                 'read (txn.Int64(name).Get(): an update buffer that stays empty) | since round 9 one generated transaction in sixteen has an empty '
+                 'body (no effect, nothing emitted)',
          'assumptions': ["index predicates decode the value with the column's own width (Reader.Int on an int16 column is zero-extended by design)",
                          'quiescent checks only (no transaction is committing while an index is read)'],
          'tests': [{'run': '^TestC03$',
@@ -224,7 +226,7 @@ CHECKS = {'C01': {'level': 'exploration',
                  '(an empty update buffer at the end of the transaction) | TestC01DropInSweep run for C06: the histories with a DropColumn inside a '
                  'delete sweep or inside a transaction body (see C01) on a primary with a logger; a follower that starts with the initial columns '
                  'and repeats the emitted commits and the DDL steps in the order in which they happened must equal the model (rows, every live '
-                 'column, Count)',
+                 'column, Count) | since round 9 one generated transaction in sixteen has an empty body (no effect, nothing emitted)',
          'assumptions': ['the replica has the same schema (columns created at the same history points) and the same index definitions',
                          'comparison happens when the primary is quiescent'],
          'tests': [{'run': '^TestC06$',
@@ -277,7 +279,8 @@ CHECKS = {'C01': {'level': 'exploration',
                  'nil, Count, every cell); non-trivial = the mark fell inside that region | since round 8 generated transactions may end by '
                  'obtaining typed column accessors that they only read (txn.Int64(name).Get(): an update buffer that stays empty) | since round 9 '
                  'Restore reads the snapshot (or its prefix) from one of four legal io.Readers chosen by the length: all at once, one byte per Read, '
-                 'pieces of 1,2,3,5,8,13 bytes, or half of what is asked with the last data arriving together with io.EOF',
+                 'pieces of 1,2,3,5,8,13 bytes, or half of what is asked with the last data arriving together with io.EOF | since round 9 one '
+                 'generated transaction in sixteen has an empty body (no effect, nothing emitted)',
          'assumptions': ['the restoring collection has the same columns (names, kinds, merge functions) as the original',
                          'vacuum is parked (24h interval), so the expire column is an ordinary int64 column here'],
          'tests': [{'run': '^TestC07$',
@@ -433,7 +436,8 @@ CHECKS = {'C01': {'level': 'exploration',
                  'after the drop is never selected, also when it re-uses the offset of a member; indexes on live columns select exactly the rows '
                  'whose own value satisfies the rule; non-trivial = an offset selected by an orphaned index at the drop was deleted, re-used and '
                  'looked at through that index | since round 8 generated transactions may end by obtaining typed column accessors that they only '
-                 'read (txn.Int64(name).Get(): an update buffer that stays empty)',
+                 'read (txn.Int64(name).Get(): an update buffer that stays empty) | since round 9 one generated transaction in sixteen has an empty '
+                 'body (no effect, nothing emitted)',
          'assumptions': ['free-parallel runs are not bit-reproducible: the replay re-runs the generated program (schedule left to the Go runtime)'],
          'tests': [{'run': '^TestC11$',
                     'checks': {'quick': 200, 'thorough': 2000},
@@ -491,7 +495,8 @@ CHECKS = {'C01': {'level': 'exploration',
                  'callback of an InsertKey may re-key the new row (SetKey) before InsertKey queues its own key - the row ends up with the InsertKey '
                  'key, the other one must not resolve; a second key column is attempted (refused) and whatever the attempt registered is dropped '
                  'again | since round 8 generated transactions may end by obtaining typed column accessors that they only read '
-                 '(txn.Int64(name).Get(): an update buffer that stays empty)',
+                 '(txn.Int64(name).Get(): an update buffer that stays empty) | since round 9 one generated transaction in sixteen has an empty body '
+                 '(no effect, nothing emitted) | the key alphabet holds the empty key and keys that are prefixes of other keys ("k", "k1", "k10")',
          'assumptions': ['existence is judged against the committed table when the operation is issued (documented mechanism)',
                          'the key column is written only through InsertKey/UpsertKey/SetKey (SetAny on the key column bypasses the duplicate test '
                          'and is outside the property)'],
@@ -614,7 +619,8 @@ CHECKS = {'C01': {'level': 'exploration',
                  'since round 7: a transaction whose only write goes to a column that is dropped before it commits emits nothing | '
                  'TestC15ManyCommits: 2..3 blocks opened by ONE bulk transaction, then 600..3000 single-row transactions, most of them into one '
                  'block: all IDs distinct, per block increasing, exactly one commit each | since round 8 generated transactions may end by obtaining '
-                 'typed column accessors that they only read (txn.Int64(name).Get(): an update buffer that stays empty)',
+                 'typed column accessors that they only read (txn.Int64(name).Get(): an update buffer that stays empty) | since round 9 one '
+                 'generated transaction in sixteen has an empty body (no effect, nothing emitted)',
          'assumptions': ['record order at the logger is apply order (Append is called under the block latch)'],
          'tests': [{'run': '^TestC15$',
                     'checks': {'quick': 250, 'thorough': 2500},
@@ -667,7 +673,8 @@ CHECKS = {'C01': {'level': 'exploration',
                  'use a "set or append" merge that returns a sub-slice of its delta | since round 8 generated transactions may end by obtaining '
                  'typed column accessors that they only read (txn.Int64(name).Get(): an update buffer that stays empty) | since round 8 a sort index '
                  'is dropped with DropIndex or with DropColumn(indexName) ("removes the column (or an index) with the specified name") and half of '
-                 'the re-creations re-use the name of the index that was dropped last',
+                 'the re-creations re-use the name of the index that was dropped last | since round 9 one generated transaction in sixteen has an '
+                 'empty body (no effect, nothing emitted)',
          'assumptions': ['quiescent checks (no writer runs during Ascend)'],
          'tests': [{'run': '^TestC16$',
                     'checks': {'quick': 300, 'thorough': 3000},
@@ -783,7 +790,7 @@ CHECKS = {'C01': {'level': 'exploration',
                  'trigger, 2..4 writers that commit unique stores, merges and deletions into DIFFERENT blocks at the same moment; at quiescence '
                  'every committed store/deletion was reported exactly once with the stored value and nothing else was reported | since round 8 '
                  'generated transactions may end by obtaining typed column accessors that they only read (txn.Int64(name).Get(): an update buffer '
-                 'that stays empty)',
+                 'that stays empty) | since round 9 one generated transaction in sixteen has an empty body (no effect, nothing emitted)',
          'assumptions': ['bool columns are not watched (a false store is encoded as the delete op-code by design)',
                          'stores into a row that the same transaction also deletes are not judged (only its single delete call is)'],
          'tests': [{'run': '^TestC19$',
